@@ -1,4 +1,5 @@
 import AITB.Model.Num
+import Driver.C10
 import Driver.C14
 import Driver.C16
 open AITB
@@ -8,6 +9,7 @@ def handleLine (line : String) : String :=
   | "num" :: "parse" :: [t] => match parseX? t with
       | some x => s!"ok {x}"
       | none => "bad-op"
+  | "C10" :: rest => DrvC10.handle rest
   | "C14" :: rest => DrvC14.handle rest
   | "C16" :: rest => DrvC16.handle rest
   | _ => "bad-op"
